@@ -53,6 +53,13 @@ Fixpoint rr_loop (av : list bool) (n : N) (robin : N) (steps : nat) : option nat
 Definition rr_select (av : list bool) (robin : N) : option nat * N :=
   rr_loop av (N.of_nat (length av)) robin (length av).
 
+(* m consecutive Selects of one RoundRobin value *)
+Fixpoint rr_run (av : list bool) (robin : N) (m : nat) : list (option nat) :=
+  match m with
+  | O => []
+  | Datatypes.S k => let '(r, robin') := rr_select av robin in r :: rr_run av robin' k
+  end.
+
 (* Random: reservoir sampling over the available hosts with a stream of rand.Int() values *)
 Fixpoint reservoir (cands : list nat) (rs : list N) (count : N) (cur : option nat) : option nat :=
   match cands with
@@ -353,6 +360,8 @@ Inductive case :=
 (* timed retry loop through the real Proxy.ServeHTTP with a fault-scripted transport per host:
    policy, configuration in ticks, Unhealthy flags, fault script per host, interference table
    (iteration -> host -> made unavailable for that Select), observed events and final status *)
+(* m consecutive Selects of one RoundRobin whose counter was set to robin (also right below 2^32) *)
+| CRRSeq (robin : N) (av : list bool) (obs : list (option nat))
 | CRetryT (p : pol) (c : tcfg) (unhl : list bool) (scripts : list script) (envl : list (list bool))
           (obs : list tev) (obs_out : tout).
 
@@ -480,6 +489,25 @@ Definition judge (c : case) : N :=
         end &&
         (* every attempt went to an available host not yet failed in this request *)
         NoDup_b obs_trace && forallb (fun i => nth i base false) obs_trace in
+      verdict agree spec
+  | CRRSeq robin av obs =>
+      let n := length av in
+      let m := length obs in
+      let any := existsb (fun b => b) av in
+      let all := forallb (fun b => b) av in
+      let nones := length (filter (fun o => match o with None => true | _ => false end) obs) in
+      let nowrap := robin + N.of_nat (m * n) <? U32 in
+      let count j := length (filter (fun o => opt_nat_eqb o (Some j)) obs) in
+      let k := Nat.div m n in
+      let agree := list_beq opt_nat_eqb (rr_run av robin m) obs in
+      let spec :=
+        (* never an unavailable host *)
+        forallb (fun o => match o with Some i => nth i av false | None => true end) obs &&
+        (* a host whenever one is available *)
+        (negb any || Nat.eqb nones 0) &&
+        (* evenness: k times each over k*n selections with all hosts up *)
+        (negb (all && Nat.ltb 0 n && Nat.eqb (k * n) m) ||
+         forallb (fun j => Nat.eqb (count j) k) (seq 0 n)) in
       verdict agree spec
   | CRetryT p c unhl scripts envl obs obs_out =>
       let n := t_n c in
